@@ -1,3 +1,4 @@
+import re
 """C05 - step history continuity and step limits (effect sets by action order)."""
 from common import (C, short, field_writers, check_owners, local_refs, accessor_summary)
 from cfg import path_leaf
@@ -347,6 +348,9 @@ def run(db, cx):
     # 7 linear propagation: position and boundary flag agree -------------------
     linear_propagator_boundary(db, cx, "C05.5-linear-boundary")
 
+    # 8 the MSC step-limit samplers never exceed the physics step ---------------
+    msc_limit_bounded(db, cx, "C05.3-msc-limit-bounded")
+
 
 def linear_propagator_boundary(db, cx, rule):
     """LinearPropagator::operator()(dist): the geometry's find_next_step says whether the step
@@ -413,3 +417,68 @@ def linear_propagator_boundary(db, cx, rule):
                   not bad, ", ".join(short(e["loc"]) for e in bad), short(f.loc),
                   why="move_to_boundary without a found boundary is undefined in the navigator")
     cx.floor("LinearPropagator forms checked", n, 1)
+
+
+def msc_limit_bounded(db, cx, rule):
+    """The true path returned by the Urban MSC step-limit samplers becomes the step length; it
+    may not exceed `max_step_` (the physics step chosen at pre-step).  Order-domain argument per
+    return: the value is `max_step_` itself, or `clamp(., ., max_step_)` / `min(., max_step_)`,
+    or a member X on a path where the branch edges give X <= max_step_: the false edge of
+    `max_step_ <= Y` (so Y < max_step_) together with X being Y, or being equal to Y by the true
+    edge of `Y == X`."""
+    n = 0
+    for nm in db.find(r"^celeritas::detail::UrbanMsc(Safety|Minimal)StepLimit::operator\(\)$"):
+        cls = nm.split("::")[-2]
+        MAXS = "F:" + C + "detail::%s::max_step_" % cls
+        done = set()
+        for f in db.get(nm):
+            brs = [b for b in f.branch_blocks(lambda c, _b: True) if None not in f.blocks[b]["succ"]]
+
+            def norm(t):
+                return (t or "").replace("this->", "").replace(" ", "")
+            for (b, i, ev) in f.events("return"):
+                if ev["loc"] in done:
+                    continue
+                done.add(ev["loc"])
+                t = norm(ev.get("t"))
+                ok, how = False, "no bound by max_step_ on this path"
+                calls = [c_.split("::")[-1] for c_ in ev.get("calls", [])]
+                if t == "max_step_":
+                    ok, how = True, "returns max_step_"
+                elif "clamp" in calls and re.match(r"^clamp\((.*),max_step_\)$", t):
+                    ok, how = True, "clamp(., ., max_step_)"
+                elif "min" in calls and re.match(r"^(celeritas::)?min(<[^>]*>)?\((max_step_,.*|.*,max_step_)\)$", t) \
+                        and t.count("(") == 1:
+                    ok, how = True, "min(., max_step_)"
+                elif re.match(r"^[A-Za-z_]\w*$", t):
+                    below, equal = set(), {t}
+                    for br in brs:
+                        c = f.blocks[br]["cond"]
+                        l, r, op = norm(c.get("l")), norm(c.get("r")), c.get("op")
+                        for e_ in (0, 1):
+                            if not f.guarded_by_edge((b, i), br, e_):
+                                continue
+                            truth = (e_ == f.cond_polarity_edge(br, True))
+                            if op == "==" and truth:
+                                if l in equal or r in equal:
+                                    equal |= {l, r}
+                            if (op == "<=" and not truth and l == "max_step_") or \
+                                    (op == ">" and truth and l == "max_step_") or \
+                                    (op == "<" and truth and r == "max_step_") or \
+                                    (op == ">=" and not truth and r == "max_step_"):
+                                below.add(r if l == "max_step_" else l)
+                    # second pass for equalities discovered after the bound
+                    for br in brs:
+                        c = f.blocks[br]["cond"]
+                        l, r, op = norm(c.get("l")), norm(c.get("r")), c.get("op")
+                        if op == "==" and f.guarded_by_edge((b, i), br, f.cond_polarity_edge(br, True)) \
+                                and (l in equal or r in equal):
+                            equal |= {l, r}
+                    if equal & below:
+                        ok, how = True, "%s = %s < max_step_ on this path" % (t, sorted(equal & below)[0])
+                n += 1
+                cx.ob(rule, "%s returns at most the physics step [@%s]" % (cls, short(ev["loc"]).split(":", 1)[1]),
+                      ok, "`return %s`: %s" % (ev.get("t", "")[:60], how), short(ev["loc"]),
+                      why="the returned true path becomes the step length: above max_step_ the track "
+                          "is moved beyond the limit chosen at pre-step (range, interaction point)")
+    cx.floor("returns of the MSC step-limit samplers", n, 6)
